@@ -10,13 +10,13 @@ import (
 )
 
 type MutOpts struct {
-	COWToggle  bool // SetCopyOnWrite / CloneCopyOnWriteContainers steps allowed
-	MaxSpan    uint64
-	Sig        string // signature prefix for violations raised inside a step
-	NoClone    bool
-	Light      bool // avoid ranges spanning more than a few chunks
-	Huge       bool // allow ranges spanning thousands of chunks / ending at 2^32 from anywhere
-	OnlyOps    []string
+	COWToggle bool // SetCopyOnWrite / CloneCopyOnWriteContainers steps allowed
+	MaxSpan   uint64
+	Sig       string // signature prefix for violations raised inside a step
+	NoClone   bool
+	Light     bool // avoid ranges spanning more than a few chunks
+	Huge      bool // allow ranges spanning thousands of chunks / ending at 2^32 from anywhere
+	OnlyOps   []string
 }
 
 var mutOpsAll = []string{"Add", "CheckedAdd", "AddInt", "AddMany", "Remove", "CheckedRemove", "AddRange", "RemoveRange", "Flip", "Clear", "RunOptimize", "Clone", "CloneCOWContainers", "SetCOW"}
@@ -64,7 +64,7 @@ func genRange(r *Rng, m *ISet, light, huge bool) (uint64, uint64) {
 			e = s + 1 + r.Range(0, 5000*65536)
 		}
 	default: // ends at a chunk edge several chunks later
-		e = ((s>>16)+1+r.Range(0, 6))<<16
+		e = ((s >> 16) + 1 + r.Range(0, 6)) << 16
 		if r.Chance(0.3) {
 			e += edgeVal16(r) // or at an edge value inside that chunk
 		}
